@@ -586,7 +586,17 @@ def main():
             cur = next((it.get('callees', []) for it in r['meta']['items'] if it.get('role') == 'fn' and it['fn'] == fnq), None)
             base = callees_base.get(u, {}).get(fnq)
             if cur is not None and base is not None:
-                newc = [c for c in cur if c not in base and c not in specified]
+                # names given a body or an assumed contract in the assembled unit itself (prelude models, extracted functions)
+                defined = r.get('defined_names')
+                if defined is None:
+                    try:
+                        with open(os.path.join(ROOT, 'build', '%s.rs' % u), encoding='utf-8') as f:
+                            txt = f.read()
+                        defined = set(re.findall(r'\bfn\s+([A-Za-z_]\w*)', txt)) | set(re.findall(r'::\s*([A-Za-z_]\w*)\s*\]\s*\(', txt))
+                    except OSError:
+                        defined = set()
+                    r['defined_names'] = defined
+                newc = [c for c in cur if c not in base and c not in specified and c not in defined]
                 if newc:
                     undecided.append('%s fails, but the changed body calls %s, for which this unit has no contract: the proof is undecided, not refuted'
                                      % (full, ', '.join('`%s`' % c for c in newc[:4])))
